@@ -379,6 +379,38 @@ def guard_consts(facts, f, op):
     return out
 
 
+def accumulation_sites(f, defs):
+    """(block, statement, accumulator local, label-length local) of every `name_len += label_len + 1` (checked or plain add)"""
+    out = []
+    for bi, b in F.blocks(f):
+        for s in b['stmts']:
+            if not (s['k'] == 'assign' and s['rv']['k'] == 'binop' and s['rv']['op'].startswith('Add') and s['rv']['l'].get('k') == 'copy'
+                    and not s['rv']['l']['place']['proj'] and s['rv']['r'].get('k') in ('copy', 'move')):
+                continue
+            acc_l = s['rv']['l']['place']['local']
+            # one step back: U = (T).0, T = AddWithOverflow(copy L, const 1)  (or plain Add in release builds)
+            u = s['rv']['r']['place']['local']
+            du = defs.get(u)
+            lbl_l = None
+            if du and du[0] == 'rv':
+                rv2 = du[1]
+                if rv2['k'] == 'use' and rv2['x']['k'] in ('copy', 'move') and rv2['x']['place']['proj']:
+                    dt = defs.get(rv2['x']['place']['local'])
+                    rv2 = dt[1] if dt and dt[0] == 'rv' else rv2
+                if rv2['k'] == 'binop' and rv2['op'].startswith('Add') and rv2['l'].get('k') in ('copy', 'move') and not rv2['l']['place']['proj'] and F.op_const(rv2['r']) == 1:
+                    lbl_l = rv2['l']['place']['local']
+                    for _ in range(4):   # release builds copy the label length into a temporary first
+                        dl = defs.get(lbl_l)
+                        if dl and dl[0] == 'rv' and dl[1]['k'] == 'use' and dl[1]['x']['k'] in ('copy', 'move') and not dl[1]['x']['place']['proj']:
+                            lbl_l = dl[1]['x']['place']['local']
+                        else:
+                            break
+            if lbl_l is None:
+                continue
+            out.append((bi, s, acc_l, lbl_l))
+    return out
+
+
 def limits_rule(ctx, facts, cfg, pol, e4):
     rid = 'C02.b'
     for key, needs_refs in ((WALK_C, True), (WALK_U, False)):
@@ -401,31 +433,8 @@ def limits_rule(ctx, facts, cfg, pol, e4):
             fr, instate, heads, succ, ff = inst
             defs = F.single_defs(f)
             done = False
-            for bi, b in F.blocks(f):
-                for s in b['stmts']:
-                    if not (s['k'] == 'assign' and s['rv']['k'] == 'binop' and s['rv']['op'].startswith('Add') and s['rv']['l'].get('k') == 'copy'
-                            and not s['rv']['l']['place']['proj'] and s['rv']['r'].get('k') in ('copy', 'move')):
-                        continue
-                    acc_l = s['rv']['l']['place']['local']
-                    # one step back: U = (T).0, T = AddWithOverflow(copy L, const 1)  (or plain Add in release builds)
-                    u = s['rv']['r']['place']['local']
-                    du = defs.get(u)
-                    lbl_l = None
-                    if du and du[0] == 'rv':
-                        rv2 = du[1]
-                        if rv2['k'] == 'use' and rv2['x']['k'] in ('copy', 'move') and rv2['x']['place']['proj']:
-                            dt = defs.get(rv2['x']['place']['local'])
-                            rv2 = dt[1] if dt and dt[0] == 'rv' else rv2
-                        if rv2['k'] == 'binop' and rv2['op'].startswith('Add') and rv2['l'].get('k') in ('copy', 'move') and not rv2['l']['place']['proj'] and F.op_const(rv2['r']) == 1:
-                            lbl_l = rv2['l']['place']['local']
-                            for _ in range(4):   # release builds copy the label length into a temporary first
-                                dl = defs.get(lbl_l)
-                                if dl and dl[0] == 'rv' and dl[1]['k'] == 'use' and dl[1]['x']['k'] in ('copy', 'move') and not dl[1]['x']['place']['proj']:
-                                    lbl_l = dl[1]['x']['place']['local']
-                                else:
-                                    break
-                    if lbl_l is None:
-                        continue
+            for bi, s, acc_l, lbl_l in accumulation_sites(f, defs):
+                if True:
                     los, his, ahi = [], [], []
                     for (bb, pk), st in instate.items():
                         if bb != bi:
@@ -533,6 +542,114 @@ def charset_rule(ctx, facts, cfg, pol):
             ctx.violation(rid, WALK_U, 'dname-predicate', 'check_uncompressed_name now filters label bytes; DNAME targets may hold any bytes', site=fu['at'], config=cfg)
 
 
+class _ScanAu(Automaton):
+    """state (label accounted, label scanned, complaints) per loop iteration of the pointer-following walker"""
+    init = (False, 'no', frozenset())
+
+    def __init__(self, f, defs, key, heads, acc_stmts, pred_closures):
+        self.f, self.defs, self.key, self.heads, self.acc_stmts, self.pred = f, defs, key, heads, acc_stmts, pred_closures
+
+    def _enter(self, q, target, at):
+        if target in self.heads:
+            acc, scan, bad = q
+            if acc and scan != 'clean':
+                bad = bad | {str(at)}
+            return (False, 'no', bad)
+        return q
+
+    def on_stmt(self, q, f, bi, s, env):
+        if f['key'] == self.key and id(s) in self.acc_stmts:
+            return (True, q[1], q[2])
+        return q
+
+    def on_term(self, q, f, bi, t, env):
+        if f['key'] == self.key and t.get('target') is not None:
+            return self._enter(q, t['target'], t.get('at') or 'the end of the loop body')
+        return q
+
+    def on_call(self, q, f, bi, t, env, flow):
+        if f['key'] != self.key:
+            return None
+        p = F.call_path(t) or ''
+        q2 = q
+        if p.endswith('::any') or p.endswith('::all') or p.endswith('::position') or p.endswith('::find'):
+            a = t['args'][1] if len(t['args']) > 1 else {}
+            ty = a.get('ty') or (a.get('place') or {}).get('ty') or {}
+            if ty.get('def') in self.pred:
+                q2 = (q[0], 'called', q[2])
+        if t.get('target') is not None:
+            q2 = self._enter(q2, t['target'], t.get('at'))
+        return [(q2, None)] if q2 != q else None
+
+    def on_edge(self, q, f, bi, t, value, target, env):
+        if f['key'] != self.key:
+            return q
+        if q[1] == 'called':
+            e = F.expr(f, self.defs, t['discr'])
+            neg = False
+            while e[0] == 'unop' and e[1] == 'Not':
+                e, neg = e[2], not neg
+            if e[0] == 'call' and str(e[1]).endswith('::any'):
+                found = (value != 0) if value is not None else all(v == 0 for v, _ in t['targets'])
+                if neg:
+                    found = not found
+                q = (q[0], 'dirty' if found else 'clean', q[2])
+        return self._enter(q, target, t.get('at'))
+
+
+def scan_on_every_path_rule(ctx, facts, cfg):
+    """C02.c (path clause): no label is accepted unscanned.  In every iteration of the walker's loop that accounts a label
+    (name_len += label_len + 1), the label-byte predicate (C02.c evaluates its byte set) is run over the label and found
+    false before the next iteration starts or the name is accepted; a path that skips the scan (labels reached through a
+    pointer, short labels, ...) or goes on after a hit is reported."""
+    rid = 'C02.c'
+    f = facts.fn(WALK_C)
+    if f is None:
+        ctx.missing(rid, WALK_C)
+        return
+    defs = F.single_defs(f)
+    acc = accumulation_sites(f, defs)
+    loops = F.natural_loops(f)
+    heads = set(loops)
+    acc = [(bi, s_) for bi, s_, a_, l_ in acc if any(bi in body for body in loops.values())]
+    pred = {c for c in facts.closures_of(f) if facts.fns.get(c, {}).get('locals', [{}])[0].get('k') == 'bool'}
+    # the accumulation of the name length (not of the cursor): the one whose result is compared with the name limit
+    pol = policy()
+    lim = []
+    for bi, s_ in acc:
+        dst = s_['place']['local']
+        for gi, gb in F.blocks(f):
+            t = gb['term']
+            if t['k'] == 'switch':
+                e = F.expr(f, defs, t['discr'])
+                if e[0] == 'binop' and e[1] in ('Gt', 'Ge', 'Le', 'Lt') and ('const', pol['name_max']) in (e[2], e[3]):
+                    if dst in [r[1]['local'] for r in F.roots(f, defs, t['discr']) if r[0] == 'load' and not r[1]['proj']] or any(
+                            x[0] == 'load' and not x[1]['proj'] and x[1]['local'] == dst for x in (e[2], e[3])):
+                        lim.append((bi, s_))
+    lim = lim or acc
+    if not lim or not heads or not pred:
+        ctx.violation(rid, WALK_C, 'scan anchors', 'cannot find the name-length accumulation (%d), the loop (%d) or the label-byte predicate (%d) in check_compressed_name' % (len(lim), len(heads), len(pred)), kind='anchor-missing', config=cfg)
+        return
+    au = _ScanAu(f, defs, WALK_C, heads, {id(s_) for _, s_ in lim[:1]}, pred)
+    flow = PathFlow(facts, au)
+    exits = flow.summary(WALK_C, _ScanAu.init)
+    bad_loop = set()
+    bad_exit = []
+    for (q, kind) in exits:
+        bad_loop |= set(q[2])
+        if kind in ('Ok', 'ret', 'Some') and q[0] and q[1] != 'clean':
+            bad_exit.append((q, kind))
+    ok = not bad_loop and not bad_exit
+    ctx.instance(rid, 'check_compressed_name: every label accounted in an iteration is scanned by the byte predicate and found clean before the next iteration / acceptance [%s]' % cfg, ok=ok, site=f['at'])
+    if bad_exit:
+        q0, k0 = bad_exit[0]
+        ctx.violation(rid, WALK_C, 'label accepted unscanned (last label)', 'check_compressed_name can accept a name whose last accounted label was not scanned by the label-byte predicate (or was found dirty)',
+                      site=f['at'], path=flow.describe_path(WALK_C, flow.witness(WALK_C, _ScanAu.init, q0, k0)), config=cfg)
+    if bad_loop:
+        ctx.violation(rid, WALK_C, 'label accepted unscanned', 'check_compressed_name can move on to the next label (loop re-entered from %s) without having run the label-byte predicate over the label it just accounted, or after the predicate found a forbidden byte: '
+                      'control characters, dots or backslashes are accepted in such labels' % ', '.join(sorted(bad_loop)), site=sorted(bad_loop)[0], config=cfg)
+
+
 def type_sets(facts, key):
     """Type variants compared against (x == Type::V.into()) in one body."""
     f = facts.fn(key)
@@ -590,5 +707,6 @@ def run(ctx):
         e4 = accept_rule(ctx, facts, cfg, pol)
         limits_rule(ctx, facts, cfg, pol, e4)
         charset_rule(ctx, facts, cfg, pol)
+        scan_on_every_path_rule(ctx, facts, cfg)
         siblings_rule(ctx, facts, cfg, pol)
     ctx.trust('tables/policy.json (the policy constants of the property text / RFC 1035 2.3.4), analysis/interp.py contracts, analysis/bits.py')
